@@ -31,6 +31,13 @@ claimed["C08"] = dict(
    note="With equilibration on, verdict disagreement is judged only when the updated problem keeps a planted strictly feasible primal-dual pair (verified independently); without one the verdict is not a stable function of the data in floating point. update_b does not cap at the infinity bound as construction does; solves after such an update are compared on verdict/objective only.",
    technique="deterministic simulation: operation histories with half-failed updates and interrupted solves vs reference model")
 
+claimed["C09"] = dict(
+   level="exploration",
+   text="The infinity bound is modelled as a sequentially consistent register (reference model R3). Seeded histories: sequential set_infinity/default_infinity before, between and after New/solve/re-solve, and concurrent histories in which 1-2 setter threads store to the bound while 1-2 solver threads construct and solve, all as simulated threads under the baton scheduler with every accessor a yield point. Oracle: some single value the register held between invoke and return of New must explain everything at once - which rows were dropped, s = bound and z = 0 there, the internal right-hand side = min(b, bound), and the kept entries bitwise equal to a reference solver built from the problem with those rows deleted and b capped by hand - and later stores must not change later solves.",
+   design_ref="DESIGN.md §4 C09, §2.5",
+   note="Interleaving granularity is the seam calls. Index bookkeeping between reduced and full vectors is exercised by the same oracle but the input space is only sampled.",
+   technique="deterministic simulation: seeded thread interleavings at the global's accessors vs register model + hand-reduced reference")
+
 na = {
  "C01": "validity of a Solved verdict is a pure function of (data, settings); no clock, I/O, schedule or fault participates, so a simulator has nothing to control",
  "C02": "validity of infeasibility certificates is a pure function of the input; the (tau,kappa) observer it needs is instrumentation, not a nondeterminism seam",
